@@ -31,6 +31,7 @@ var scripted = []scenario{
 	{"mixed_consumers", scMixedConsumers},
 	{"key_rotation", scKeyRotation},
 	{"lifecycle_corners", scLifecycleCorners},
+	{"authority", scAuthority},
 }
 
 func init() {
@@ -799,4 +800,128 @@ func scLifecycleCorners(t *testing.T, w *World, variant int) {
 		w.Block("p", 1800, nil)
 	}
 	w.Block("p", 5, nil)
+}
+
+// ---------------------------------------------------------------------------------------
+// bulk: more entries due in one block than a time queue hands out per block (200), for all three queues
+// (launch, infraction-parameter changes, removal)
+func scBulk(t *testing.T, w *World, variant int) {
+	n := 206 + variant%3 // three or four launches fail, one request is cancelled: more than 200 entries stay in every queue
+	owners := []string{"o1", "o2", "u1"}
+	t1 := w.now() + 900
+	twoStamps := variant%2 == 1
+	noOptIn := func(i int) bool { return i%67 == 5 } // these launches fail: nobody opted in
+	for i := 0; i < n; {
+		var txs []map[string]any
+		for j := 0; j < 45 && i < n; j, i = j+1, i+1 {
+			spawn := t1
+			if twoStamps && i >= 150 {
+				spawn = t1 + 1 // a second timestamp, consumed partially in the launch block
+			}
+			txs = append(txs, map[string]any{"a": "CreateConsumer", "sender": owners[i%3], "chain": fmt.Sprintf("bulk%d-1", i), "init": map[string]any{"initRev": 1, "spawn": spawn}})
+			if !noOptIn(i) {
+				txs = append(txs, map[string]any{"a": "OptIn", "v": []string{"v1", "v2"}[i%2], "c": fmt.Sprintf("c%d", i)})
+			}
+		}
+		w.Block("p", 5, nil, txs...)
+	}
+	// everything becomes due in one block; the rest follows in the next ones
+	w.Block("p", t1+2-w.now(), nil)
+	for i := 0; i < 3; i++ {
+		w.Block("p", 5, nil)
+	}
+	// infraction-parameter changes for every launched consumer: one request block (one due time) or three
+	inf := map[string]any{"dt": map[string]any{"frac": "0.010000000000000000", "jail": 1200, "tomb": false}}
+	per := n
+	if variant%3 == 2 {
+		per = 70
+	}
+	for i := 0; i < n; {
+		var txs []map[string]any
+		for j := 0; j < per && i < n; j, i = j+1, i+1 {
+			txs = append(txs, map[string]any{"a": "UpdateConsumer", "sender": owners[i%3], "c": fmt.Sprintf("c%d", i), "infr": inf})
+		}
+		w.Block("p", 5, nil, txs...)
+	}
+	tReq := w.now()
+	u := w.Cfg.Unbonding
+	// a few change their mind (replace / cancel), a slice of the consumers is stopped before the change is due
+	w.Block("p", 5, nil,
+		map[string]any{"a": "UpdateConsumer", "sender": owners[0], "c": "c0", "infr": map[string]any{"dt": map[string]any{"frac": "0.000000000000000000", "jail": 600, "tomb": false}}},
+		map[string]any{"a": "UpdateConsumer", "sender": owners[1], "c": "c1", "infr": map[string]any{"dt": map[string]any{"frac": "0.020000000000000000", "jail": 1300, "tomb": false}}})
+	w.Block("p", u/2, nil)
+	var stops []map[string]any
+	for i := 0; i < n; i++ {
+		if i%2 == 0 || variant%2 == 0 {
+			stops = append(stops, map[string]any{"a": "RemoveConsumer", "sender": owners[i%3], "c": fmt.Sprintf("c%d", i)})
+		}
+	}
+	w.Block("p", 5, nil, stops...)
+	// past the due time of the parameter changes: 200 in one block, the rest in the next
+	w.Block("p", tReq+u+20-w.now(), nil)
+	for i := 0; i < 3; i++ {
+		w.Block("p", 5, nil)
+	}
+	// past the removal time
+	w.Block("p", u/2, nil)
+	for i := 0; i < 4; i++ {
+		w.Block("p", 5, nil)
+	}
+}
+
+func init() {
+	scenarios["bulk"] = func(t *testing.T, seed int64) *World {
+		cfg := DefaultConfig()
+		cfg.Unbonding = 4 * 3600
+		cfg.ConsUnbonding = 3 * 3600
+		cfg.BlocksPerEpoch = 4
+		w := NewWorld(t, cfg)
+		w.rec.Start()
+		w.rec.emit("p", "Scenario", map[string]any{"name": "bulk", "variant": int(seed)}, nil, nil)
+		w.Block("p", 5, nil)
+		scBulk(t, w, int(seed))
+		return w
+	}
+}
+
+// authority corners: every validator message signed by somebody else's operator on a launched consumer where it WOULD
+// succeed if accepted; owner messages by outsiders; authority-only messages by users; parameter values beyond 32 bits
+func scAuthority(t *testing.T, w *World, variant int) {
+	c0 := w.quickConsumer("auth-1", 1, []string{"v1", "v2", "v3"}, nil)
+	w.Block("p", 5, nil, map[string]any{"a": "AssignKey", "v": "v2", "c": c0, "key": "k2"})
+	other := []string{"op3", "op1", "op4", "o1"}[variant%4]
+	// each of these names validator v2 but is signed by `other`
+	w.Block("p", 5, nil, map[string]any{"a": "OptOut", "v": "v2", "c": c0, "signer": other})
+	w.Block("p", 5, nil, map[string]any{"a": "AssignKey", "v": "v2", "c": c0, "key": "k3", "signer": other})
+	w.Block("p", 5, nil, map[string]any{"a": "SetCommission", "v": "v2", "c": c0, "rate": "0.500000000000000000", "signer": other})
+	w.Block("p", 5, nil, map[string]any{"a": "OptIn", "v": "v4", "c": c0, "signer": other}, map[string]any{"a": "OptIn", "v": "v4", "c": c0, "key": "k4", "signer": other})
+	// the legitimate ones, for contrast
+	w.Block("p", 5, nil, map[string]any{"a": "SetCommission", "v": "v2", "c": c0, "rate": "0.250000000000000000"}, map[string]any{"a": "OptIn", "v": "v4", "c": c0})
+	for i := 0; i < 3; i++ {
+		w.Block("p", 5, nil)
+	}
+	w.Block("p", 5, nil, map[string]any{"a": "OptOut", "v": "v4", "c": c0, "signer": other}, map[string]any{"a": "OptOut", "v": "v3", "c": c0})
+	// owner messages by outsiders, authority-only messages by users
+	w.Block("p", 5, nil, map[string]any{"a": "UpdateConsumer", "sender": "o2", "c": c0, "newOwner": "o2"},
+		map[string]any{"a": "RemoveConsumer", "sender": "u1", "c": c0},
+		map[string]any{"a": "UpdateParams", "authority": "o1", "M": 2},
+		map[string]any{"a": "ChangeRewardDenoms", "authority": "u1", "add": []string{"photon"}})
+	// the authority itself, with values around and beyond 32 bits for the size of the provider's consensus set
+	ms := []string{"4294967296", "4294967297", "1099511627776", "4294967298", "9223372036854775807", "2147483648"}
+	w.GovExec(map[string]any{"a": "UpdateParams", "Mstr": ms[variant%len(ms)]})
+	for i := 0; i < 3; i++ {
+		w.Block("p", 5, nil)
+	}
+	w.Block("p", 5, nil, map[string]any{"a": "Delegate", "v": "v4", "amt": 2500000})
+	for i := 0; i < 3; i++ {
+		w.Block("p", 5, nil)
+	}
+	w.GovExec(map[string]any{"a": "UpdateParams", "M": 2 + variant%2})
+	for i := 0; i < 3; i++ {
+		w.Block("p", 5, nil)
+	}
+	w.GovExec(map[string]any{"a": "UpdateParams", "Mstr": ms[(variant+1)%len(ms)]}, map[string]any{"a": "ChangeRewardDenoms", "add": []string{"photon"}})
+	for i := 0; i < 3; i++ {
+		w.Block("p", 5, nil)
+	}
 }
